@@ -345,7 +345,7 @@ class TokenParser(Parser):
     @staticmethod
     def _remove_comments(string: str) -> str:
         # https://stackoverflow.com/a/18381470
-        pattern = r"(\".*?\"|\'.*?\')|(/\*.*?\*/|//[^\r\n]*$)"
+        pattern = r"(\".*?\"|\'.*?\')|(/\*.*?\*/|//[^\r\n]*)"
         # first group captures quoted strings (double or single)
         # second group captures comments (//single-line or /* multi-line */)
         regex = re.compile(pattern, re.MULTILINE | re.DOTALL)
@@ -354,7 +354,8 @@ class TokenParser(Parser):
             # if the 2nd group (capturing comments) is not None,
             # it means we have captured a non-quoted (real) comment string.
             if comment := match.group(2):
-                return "\n" * comment.count("\n")  # so we will return empty to remove the comment
+                # a comment counts as one blank (the tokens around it stay apart); its line breaks are kept for the line numbers
+                return "\n" * comment.count("\n") or " "
             # otherwise, we will return the 1st group
             return match.group(1)  # captured quoted-string
 
